@@ -125,8 +125,10 @@ static struct {
 	size_t wm_high;
 	size_t inlen, outlen;    /* facts about the environment, taken from the real buffers */
 	int susp_bw[2];          /* environment fact (rate-limited variant): direction suspended for bandwidth */
+	int64_t cleared_at[2], cleared_tmo[2]; /* when set_timeouts removed the timeout of d, and what it was (keys only) */
 } m;
 static int dead;             /* model and implementation have diverged: stop the history */
+static int64_t mono_now(void);
 
 static int susp_r(void) { return m.wm_high && m.inlen >= m.wm_high; }
 static int active(int d)
@@ -186,7 +188,11 @@ static void m_consume(int after_loop)
 			d = (what & BEV_EVENT_READING) ? R : W;
 			if (!after_loop) { failk(d, "fires-outside-loop", NULL, "timeout event delivered by an API call%.0lld%.0lld", 0, 0); break; }
 			if (!m.armed[d]) {
-				const char *why = !m.en[d] ? "while-disabled" : !m.tmo[d] ? "without-timeout-set" :
+				/* no timeout configured: did the interval that just ended start before the timeout
+				 * was cleared (the clearing did not stop it) or after (something revived it)? */
+				const char *why = !m.en[d] ? "while-disabled" : !m.tmo[d] ?
+				    (m.cleared_tmo[d] && e->t - m.cleared_tmo[d] > m.cleared_at[d] ?
+				     "without-timeout-set/started-after-clearing" : "without-timeout-set/survived-clearing") :
 				    m.susp_bw[d] ? "while-suspended-for-bandwidth" :
 				    d == R ? "while-suspended" : "with-empty-output";
 				failk(d, "spurious", why, "timeout fired although the idle timer is not running%.0lld%.0lld", 0, 0);
@@ -219,7 +225,14 @@ static void m_after_loop(void)
 {
 	for (int d = 0; d < 2; d++) {
 		if (m.armed[d] && vclock_us >= m.deadline[d]) {
-			failk(d, "missing", byname[m.by[d]], "no timeout although idle since %lld (now %lld)", m.deadline[d] - m.tmo[d], vclock_us);
+			/* Signature (only used to key the failure): the implementation restarted the interval in
+			 * this very loop run although no byte was transferred in it — its timer is pending with
+			 * deadline now + duration. */
+			struct event *ev = d == R ? &B->ev_read : &B->ev_write;
+			int restarted = (ev->ev_evcallback.evcb_flags & EVLIST_TIMEOUT) &&
+			    (int64_t)ev->ev_timeout.tv_sec * 1000000 + ev->ev_timeout.tv_usec - mono_now() == m.tmo[d];
+			failk(d, "missing", restarted ? "restarted-in-loop-without-transfer" : byname[m.by[d]],
+			    "no timeout although idle since %lld (now %lld)", m.deadline[d] - m.tmo[d], vclock_us);
 			return;
 		}
 		if (m.armed[d]) { if (d == R) MC_COUNT("loop_with_read_timer_running"); else MC_COUNT("loop_with_write_timer_running"); }
@@ -316,6 +329,11 @@ static uint64_t canon(void)
 		h = mc_hash_u64(h, m.armed[d] ? (uint64_t)(m.deadline[d] - vclock_us) : 0);
 		h = mc_hash_u64(h, m.armed[d] ? (uint64_t)m.by[d] : 0);
 		h = mc_hash_u64(h, (uint64_t)m.susp_bw[d]);
+		if (!m.tmo[d] && m.cleared_tmo[d]) {   /* only matters while no timeout is set; exact up to the old duration */
+			int64_t since = vclock_us - m.cleared_at[d];
+			h = mc_hash_u64(h, (uint64_t)m.cleared_tmo[d]);
+			h = mc_hash_u64(h, (uint64_t)(since > m.cleared_tmo[d] ? m.cleared_tmo[d] + 1 : since));
+		}
 	}
 	h = mc_hash_u64(h, m.wm_high); h = mc_hash_u64(h, m.inlen); h = mc_hash_u64(h, m.outlen);
 	h = h_bev(h, B);
@@ -356,6 +374,8 @@ static void set_tmo(int r, int w)
 {
 	struct timeval tr = { 0, (int)TMO[r] }, tw = { 0, (int)TMO[w] };
 	bufferevent_set_timeouts(B, r ? &tr : NULL, w ? &tw : NULL);
+	if (!TMO[r] && m.tmo[R]) { m.cleared_at[R] = vclock_us; m.cleared_tmo[R] = m.tmo[R]; }
+	if (!TMO[w] && m.tmo[W]) { m.cleared_at[W] = vclock_us; m.cleared_tmo[W] = m.tmo[W]; }
 	m.tmo[R] = TMO[r]; m.tmo[W] = TMO[w];
 	/* "setting a timeout for a bufferevent whose timeout is already pending resets its timeout" */
 	m_restart(R, BY_SETTMO); m_restart(W, BY_SETTMO);
